@@ -100,6 +100,34 @@ class Prop(common.PropertyCheck):
                         for pos in sorted(set(delims + early)):
                             yield {'k': 'corrupt', 'spec': spec, 'field': f, 'delta': ['to', pos]}
 
+        # files of more than 2**16 events (block-wise readers), cut at event boundaries and inside events of the DATA segment; oracle only
+        for i in range(self.budget(6, 40)):
+            ws = [[8, 16], [24, 24, 24], [16, 8, 24], [16, 16], [32, 32]][i % 5]
+            yield {'k': 'bigtrunc', 'widths': ws, 'datatype': 'F' if ws == [32, 32] else 'I', 'n': [70000, 131073, 65537][i % 3], 'big_endian': i % 2 == 1,
+                   'keep': [69000, 65536, 1, 65535, 131072, 69999][i % 6], 'inside': i % 4 == 3, 'seed': rng.randrange(1 << 30)}
+
+    def run_bigtrunc(self, case):
+        import numpy as np
+        ws = case['widths']
+        esz = sum(ws) // 8
+        N = case['n']
+        keep = min(case['keep'], N - 1)
+        raw = np.random.RandomState(case['seed'] % (1 << 31)).randint(1, 256, size=(N, esz)).astype(np.uint8)      # no zero byte: every event is non-zero
+        spec = {'version': 'FCS3.0', 'delim': '/', 'datatype': case['datatype'], 'byteord': '4,3,2,1' if case['big_endian'] else '1,2,3,4', 'widths': ws,
+                'ranges': [1 << w for w in ws], 'events': [], 'tot': N, 'raw_data': raw.tobytes().decode(fcswriter.ENC), 'placement': 'header', 'text_offsets_too': True,
+                'end_conv': 'last', 'pad_text': 0, 'pad_data': 0, 'pad_after': 0, 'order': 'TDA'}
+        data, layout = fcswriter.build(spec)
+        db = layout['segs']['D'][0]
+        full = fcsgen.load_bytes(data, want_fcsdata=False)
+        if 'err' in full or full['shape'] != [N, len(ws)]:
+            return {'bigtrunc': 'the intact file (%d events, widths %s) does not load: %s' % (N, ws, full.get('err') or full['shape'])}
+        cut = db + keep * esz + (esz // 2 + 1 if case['inside'] else 0)
+        r = fcsgen.load_bytes(data[:cut], want_fcsdata=False)
+        if 'err' in r:
+            return {'bigtrunc': None}
+        return {'bigtrunc': 'a file of %d events (widths %s) cut after %d complete events%s was loaded without error: shape %s' % (
+            N, ws, keep, ' and part of the next one' if case['inside'] else '', r.get('shape'))}
+
     # ---- helpers ----------------------------------------------------------------
     def intact(self, spec):
         key = json.dumps(spec, sort_keys=True)
@@ -180,6 +208,8 @@ class Prop(common.PropertyCheck):
             r = fcsgen.load_bytes(b'', want_fcsdata=False)
             r['file'] = []
             return r
+        if case['k'] == 'bigtrunc':
+            return self.run_bigtrunc(case)
         spec = case['spec']
         data, layout, intact = self.intact(spec)
         if case['k'] == 'trunc':
@@ -204,6 +234,9 @@ class Prop(common.PropertyCheck):
             return None
         if case['k'] == 'empty':
             return None if 'err' in impl else 'an empty file was loaded: %s' % impl
+        if case['k'] == 'bigtrunc':
+            self.bump('big-file-cut')
+            return impl['bigtrunc']
         data, layout, intact = self.intact(case['spec'])
         if 'err' in intact:
             return 'harness: intact file does not load (%s %s)' % (intact['err'], intact.get('msg'))
@@ -310,7 +343,7 @@ class Prop(common.PropertyCheck):
         return msg
 
     def model_request(self, case, impl):
-        if impl.get('skip'):
+        if impl.get('skip') or case['k'] == 'bigtrunc':
             return None
         return {'op': 'load', 'file': impl['file']}
 
@@ -320,6 +353,8 @@ class Prop(common.PropertyCheck):
     def nontrivial_key(self, case, impl):
         if impl.get('skip') or case['k'] == 'empty':
             return None
+        if case['k'] == 'bigtrunc':
+            return ('bigtrunc', tuple(case['widths']), case['n'], case['keep'], case['inside'])
         s = case['spec']
         data, layout, intact = self.intact(s)
         sig = (s['datatype'], tuple(s['widths']), s['placement'], s['end_conv'], s.get('order'), bool(s.get('analysis')), bool(s.get('stext')))
@@ -329,7 +364,7 @@ class Prop(common.PropertyCheck):
         return (sig, case['field'], str(case['delta']), 'err' if 'err' in impl else 'ok')
 
     def shrink_candidates(self, case):
-        if case['k'] == 'empty':
+        if case['k'] in ('empty', 'bigtrunc'):
             return
         s = case['spec']
         ev = s['events']
